@@ -47,6 +47,7 @@ class H264(object):
         :type buf: str
         :rtype: bool
         """
+        self.nals = []
         nal_hdr = struct.pack(">L", NAL_HEADER)
         offsets = string_matching_boyer_moore_horspool(buf.decode(), nal_hdr.decode())
 
@@ -84,6 +85,7 @@ class NAL(object):
         """
 
         # First 4 bytes are the NAL_HEADER, then forbidden + type
+        self.sei = None
         (self.type,) = struct.unpack_from(">B", buf, NAL_HEADER_LEN)
         self.type = self.type & 0x1F
         self.size = len(buf)
